@@ -144,3 +144,13 @@ VARIANTS += [
  V("c23-b1-reintroduce-F11", "C23", "C23.B1", "internal/manifest/version_edit.go",
    "						blobReferences = make([]BlobReference, 0, min(n, 16))", "						blobReferences = make([]BlobReference, 0, n)"),
 ]
+
+VARIANTS += [
+ V("c21-q1-reintroduce-F12", "C21", "C21.Q1", "wal/failover_writer.go",
+   "	q.lastTailObservedByProducer = t\n	q.buffer[int(h)%m] = recordQueueEntry{\n		p:          p,\n		opts:       opts,\n		refCount:   refCount,\n		writeStart: writeStart,\n	}\n",
+   "	q.buffer[int(h)%m] = recordQueueEntry{\n		p:          p,\n		opts:       opts,\n		refCount:   refCount,\n		writeStart: writeStart,\n	}\n	for i := q.lastTailObservedByProducer; i < t; i++ {\n		q.buffer[int(i)%m] = recordQueueEntry{}\n	}\n	q.lastTailObservedByProducer = t\n"),
+ V("c21-g1-pop-on-failed-sync", "C21", "C21.G1", "wal/failover_writer.go",
+   "		// LogWriter.\n		return\n	}\n	// NB: harmless after Close returns", "		// LogWriter.\n	}\n	// NB: harmless after Close returns"),
+ V("c21-g2-dedup-off-by-one", "C21", "C21.G2", "wal/reader.go",
+   "h.SeqNum <= r.lastSeqNum", "h.SeqNum < r.lastSeqNum"),
+]
